@@ -1,2 +1,240 @@
--- stub driver for C09: replaced when the property's model exists
-def main : IO Unit := pure ()
+import Snel.Model.Proto
+import Snel.Model.Aggregate
+open Snel Snel.Proto Snel.Agg
+
+/-! Line driver for C09. Streams:
+
+* `flow <cal> <gran|-> <tf> <groupBy|-> <metrics> <width> { P { B { R cell* } } }` → final table
+* `flowin … RESULT <table tokens>` → `in` when the table is one of the two outcomes the
+  unspecified `HashMap` iteration order of `into_partial` allows
+* `state <metric> <state>+` → left fold of `AggState::merge`, then `agg_state_to_scalar`
+* `bucket <cal|naive> <gran> <i64>` → bucket start (u64)
+* `pi64 <hex>` → `get_i64_at` of a one-string column
+* `conv <width> { B { R cell* } }` → per row the cells (`get_i64_at`, `get_str_at`) -/
+
+def strOfHex (h : String) : Option String := do
+  let bs ← unhex h
+  String.fromUTF8? (ByteArray.mk bs.toArray)
+
+def hexOfStr (s : String) : String := hexOfBytes s.toUTF8.toList
+
+def parseInt (s : String) : Option Int :=
+  match s.toList with
+  | '-' :: ds => (String.ofList ds).toNat?.map fun n => -(n : Int)
+  | _ => s.toNat?.map fun n => (n : Int)
+
+def parseCell (tok : String) : Option Scalar :=
+  match tok.toList with
+  | ['n'] => some .null
+  | ['y'] => some .bin
+  | ['b', '0'] => some (.bool false)
+  | ['b', '1'] => some (.bool true)
+  | 'i' :: r => (parseInt (String.ofList r)).map .int
+  | 't' :: r => (parseInt (String.ofList r)).map .ts
+  | 'd' :: r => (strOfHex (String.ofList r)).map .float
+  | 's' :: r => (strOfHex (String.ofList r)).map .str
+  | _ => none
+
+def parseGran (s : String) : Option (Option Gran) :=
+  match s with
+  | "-" => some none
+  | "h" => some (some .hour)
+  | "d" => some (some .day)
+  | "w" => some (some .week)
+  | "m" => some (some .month)
+  | "y" => some (some .year)
+  | _ => none
+
+def parseMetric (tok : String) : Option Metric :=
+  match tok.toList with
+  | ['c'] => some .countAll
+  | 'f' :: r => (String.ofList r).toNat?.map .countField
+  | 'u' :: r => (String.ofList r).toNat?.map .countUnique
+  | 't' :: r => (String.ofList r).toNat?.map .total
+  | 'a' :: r => (String.ofList r).toNat?.map .avg
+  | 'n' :: r => (String.ofList r).toNat?.map .min
+  | 'x' :: r => (String.ofList r).toNat?.map .max
+  | _ => none
+
+def parsePlan (cal gran tf gb ms : String) : Option Plan := do
+  let calendar ← (match cal with | "1" => some true | "0" => some false | _ => none)
+  let bucket ← parseGran gran
+  let timeField ← tf.toNat?
+  let groupBy ← (if gb == "-" then some none else ((gb.splitOn ",").mapM String.toNat?).map some)
+  let metrics ← (ms.splitOn ",").mapM parseMetric
+  some { metrics, groupBy, bucket, timeField, calendar }
+
+/-- take `w` cells -/
+def takeCells : Nat → List String → List Scalar → Option (List Scalar × List String)
+  | 0, rest, acc => some (acc.reverse, rest)
+  | _ + 1, [], _ => none
+  | n + 1, t :: rest, acc => do
+    let c ← parseCell t
+    takeCells n rest (c :: acc)
+
+/-- body → flows of batches of rows (reversed accumulators); stops at `RESULT` -/
+def parseBody (w : Nat) : Nat → List String → List (List (List (List Scalar))) →
+    Option (List (List (List (List Scalar))) × List String)
+  | 0, _, _ => none
+  | _ + 1, [], acc => some (acc, [])
+  | fuel + 1, tok :: rest, acc =>
+    if tok == "RESULT" then some (acc, rest)
+    else if tok == "P" then parseBody w fuel rest ([] :: acc)
+    else if tok == "B" then
+      match acc with
+      | fl :: more => parseBody w fuel rest (([] :: fl) :: more)
+      | [] => none
+    else if tok == "R" then
+      match takeCells w rest [] with
+      | some (cells, rest') =>
+        match acc with
+        | (b :: bs) :: more => parseBody w fuel rest' (((cells :: b) :: bs) :: more)
+        | _ => none
+      | none => none
+    else none
+
+def fixOrder (acc : List (List (List (List Scalar)))) : List (List (List (List Scalar))) :=
+  (acc.map fun fl => (fl.map fun b => b.reverse).reverse).reverse
+
+def keyLe (a b : Key) : Bool :=
+  match a.bucket, b.bucket with
+  | none, some _ => true
+  | some _, none => false
+  | some x, some y => if x < y then true else if y < x then false else !(decide (b.groups < a.groups))
+  | none, none => !(decide (b.groups < a.groups))
+
+def hex16 (n : Nat) : String :=
+  String.ofList ((List.range 16).reverse.map fun i => hexDigit ((n / 16 ^ i) % 16))
+
+def showOut : Out → String
+  | .int i => s!"i{i}"
+  | .str s => "s" ++ hexOfStr s
+  | .avg s c =>
+    let f : Float := if c == 0 then 0.0 else Float.ofInt s / Float.ofInt c
+    "a" ++ hex16 f.toBits.toNat
+  | .null => "N"
+
+def showRow (e : Key × List Out) : String :=
+  let b := match e.1.bucket with | some b => toString b | none => "N"
+  let g := if e.1.groups.isEmpty then "*" else ",".intercalate (e.1.groups.map hexOfStr)
+  s!"{b}/{g}=" ++ ",".intercalate (e.2.map showOut)
+
+def showTable (t : Option (List (Key × List Out))) : String :=
+  match t with
+  | none => "err"
+  | some [] => "empty"
+  | some rows => " ".intercalate ((rows.mergeSort fun a b => keyLe a.1 b.1).map showRow)
+
+def runLine (p : Plan) (w : Nat) (flows : List (List (List (List Scalar)))) (zeroLast : Bool) : String :=
+  showTable (finalTable p (runFlows p zeroLast (flows.map (tagFlow p w))))
+
+def flowAnswer (toks : List String) (membership : Bool) : String :=
+  match toks with
+  | cal :: gran :: tf :: gb :: ms :: w :: body =>
+    match parsePlan cal gran tf gb ms, w.toNat? with
+    | some p, some w =>
+      match parseBody w (body.length + 1) body [] with
+      | some (acc, result) =>
+        let flows := fixOrder acc
+        let a := runLine p w flows true
+        let b := runLine p w flows false
+        if membership then
+          let r := " ".intercalate result
+          if r == a || r == b then "in" else s!"out {a} || {b}"
+        else if a == b then a else s!"split {a} || {b}"
+      | none => "bad-op"
+    | _, _ => "bad-op"
+  | _ => "bad-op"
+
+def parseOptInt (s : String) : Option (Option Int) :=
+  if s == "-" then some none else (parseInt s).map some
+def parseOptStr (s : String) : Option (Option String) :=
+  if s == "_" then some none else (strOfHex s).map some
+
+/-- `c<int>` | `u<hex>,<hex>…` (`u` alone = empty set) | `s<int>` | `a<int>,<int>` |
+`m<int|->,<hex|_>` | `x<int|->,<hex|_>` -/
+def parseSt (tok : String) : Option St :=
+  match tok.toList with
+  | 'c' :: r => (parseInt (String.ofList r)).map .cnt
+  | 's' :: r => (parseInt (String.ofList r)).map .sum
+  | ['u'] => some (.uniq [])
+  | 'u' :: r => (((String.ofList r).splitOn ",").mapM strOfHex).map .uniq
+  | 'a' :: r =>
+    match (String.ofList r).splitOn "," with
+    | [s, c] => do some (.avg (← parseInt s) (← parseInt c))
+    | _ => none
+  | 'm' :: r =>
+    match (String.ofList r).splitOn "," with
+    | [n, s] => do some (.mn (← parseOptInt n) (← parseOptStr s))
+    | _ => none
+  | 'x' :: r =>
+    match (String.ofList r).splitOn "," with
+    | [n, s] => do some (.mx (← parseOptInt n) (← parseOptStr s))
+    | _ => none
+  | _ => none
+
+def showOptInt : Option Int → String
+  | some i => toString i
+  | none => "-"
+def showOptStr : Option String → String
+  | some s => hexOfStr s
+  | none => "_"
+
+def showSt : St → String
+  | .cnt n => s!"c{n}"
+  | .sum s => s!"s{s}"
+  | .uniq vs => "u" ++ ",".intercalate ((vs.mergeSort fun a b => !(decide (b < a))).map hexOfStr)
+  | .avg s c => s!"a{s},{c}"
+  | .mn n s => s!"m{showOptInt n},{showOptStr s}"
+  | .mx n s => s!"x{showOptInt n},{showOptStr s}"
+
+def stateAnswer (toks : List String) : String :=
+  match toks with
+  | m :: first :: rest =>
+    match parseMetric m, parseSt first, rest.mapM parseSt with
+    | some m, some s0, some more =>
+      let s := more.foldl St.merge s0
+      let o := match outOf m s with | some o => showOut o | none => "err"
+      s!"{showSt s} {o}"
+    | _, _, _ => "bad-op"
+  | _ => "bad-op"
+
+def showCell (c : Option Cell) : String :=
+  match c with
+  | none => "x"
+  | some c => s!"{showOptInt c.num}:{showOptStr c.str}"
+
+def convAnswer (toks : List String) : String :=
+  match toks with
+  | w :: body =>
+    match w.toNat? with
+    | some w =>
+      match parseBody w (body.length + 1) ("P" :: body) [] with
+      | some (acc, _) =>
+        let batches := (fixOrder acc).flatten
+        " | ".intercalate (batches.map fun b =>
+          " ; ".intercalate ((convertBatch w b).map fun r => " ".intercalate (r.map showCell)))
+      | none => "bad-op"
+    | none => "bad-op"
+  | _ => "bad-op"
+
+def answer (line : String) : String :=
+  match words line with
+  | "flow" :: rest => flowAnswer rest false
+  | "flowin" :: rest => flowAnswer rest true
+  | "state" :: rest => stateAnswer rest
+  | ["bucket", mode, g, ts] =>
+    match parseGran g, parseInt ts with
+    | some (some g), some i =>
+      if mode == "cal" then toString (bucketOf true g i)
+      else if mode == "naive" then toString (bucketOf false g i)
+      else "bad-op"
+    | _, _ => "bad-op"
+  | ["pi64", h] =>
+    match strOfHex h with
+    | some s => showOptInt (parseI64 s)
+    | none => "bad-op"
+  | "conv" :: rest => convAnswer rest
+  | _ => "bad-op"
+
+def main : IO Unit := serve answer
